@@ -559,19 +559,19 @@ set_option maxHeartbeats 2000000 in
 /-- on a matrix whose three rows already have length 1 the normalisation step of `extractEulerXYZ`
     is the identity and the rest is, term for term, `Euler::extract (Matrix44)` for order XYZ -/
 theorem extractEulerXYZ_eq_member {α : Type} [Field α] [LinearOrder α] [IsStrictOrderedRing α]
-    (tmin : α) (sqrt sin cos : α → α) (atan2 : α → α → α) (m : M44 α)
-    (h0 : Gen.V3.length tmin sqrt ⟨m.x00, m.x01, m.x02⟩ = 1) (h1 : Gen.V3.length tmin sqrt ⟨m.x10, m.x11, m.x12⟩ = 1)
-    (h2 : Gen.V3.length tmin sqrt ⟨m.x20, m.x21, m.x22⟩ = 1) :
-    Gen.Euler.extractEulerXYZ tmin sqrt sin cos atan2 m = exM44 .XYZ sqrt sin cos atan2 m := by
+    (tmin tmax : α) (sqrt sin cos : α → α) (atan2 : α → α → α) (m : M44 α)
+    (h0 : Gen.V3.length tmin tmax sqrt ⟨m.x00, m.x01, m.x02⟩ = 1) (h1 : Gen.V3.length tmin tmax sqrt ⟨m.x10, m.x11, m.x12⟩ = 1)
+    (h2 : Gen.V3.length tmin tmax sqrt ⟨m.x20, m.x21, m.x22⟩ = 1) :
+    Gen.Euler.extractEulerXYZ tmin tmax sqrt sin cos atan2 m = exM44 .XYZ sqrt sin cos atan2 m := by
   simp only [Gen.Euler.extractEulerXYZ, exM44, Gen.Euler.extractM44_XYZ, h0, h1, h2, one_ne_zero, if_false, div_one]
   apply V3.ext' <;> simp only [zero_mul, mul_zero, add_zero, zero_add, one_mul, mul_one]
 
 set_option maxHeartbeats 2000000 in
 theorem extractEulerZYX_eq_member {α : Type} [Field α] [LinearOrder α] [IsStrictOrderedRing α]
-    (tmin : α) (sqrt sin cos : α → α) (atan2 : α → α → α) (m : M44 α)
-    (h0 : Gen.V3.length tmin sqrt ⟨m.x00, m.x01, m.x02⟩ = 1) (h1 : Gen.V3.length tmin sqrt ⟨m.x10, m.x11, m.x12⟩ = 1)
-    (h2 : Gen.V3.length tmin sqrt ⟨m.x20, m.x21, m.x22⟩ = 1) :
-    Gen.Euler.extractEulerZYX tmin sqrt sin cos atan2 m = exM44 .ZYX sqrt sin cos atan2 m := by
+    (tmin tmax : α) (sqrt sin cos : α → α) (atan2 : α → α → α) (m : M44 α)
+    (h0 : Gen.V3.length tmin tmax sqrt ⟨m.x00, m.x01, m.x02⟩ = 1) (h1 : Gen.V3.length tmin tmax sqrt ⟨m.x10, m.x11, m.x12⟩ = 1)
+    (h2 : Gen.V3.length tmin tmax sqrt ⟨m.x20, m.x21, m.x22⟩ = 1) :
+    Gen.Euler.extractEulerZYX tmin tmax sqrt sin cos atan2 m = exM44 .ZYX sqrt sin cos atan2 m := by
   simp only [Gen.Euler.extractEulerZYX, exM44, Gen.Euler.extractM44_ZYX, h0, h1, h2, one_ne_zero, if_false, div_one]
   apply V3.ext' <;> simp only [zero_mul, mul_zero, add_zero, zero_add, one_mul, mul_one, neg_neg, mul_neg]
 
@@ -609,8 +609,8 @@ theorem extract_inverts_toQuat_partial (o : Ord) (a : V3 ℝ) (h : principal o a
     extract_inverts_toMatrix33_partial o a h]
 
 /-- `extractEulerXYZ` inverts `Matrix44::setEulerAngles` -/
-theorem extractEulerXYZ_inverts_setEulerAngles (tmin : ℝ) (a : V3 ℝ) (h : principal .XYZ a) :
-    Gen.Euler.extractEulerXYZ tmin Real.sqrt Real.sin Real.cos atan2R (Gen.Euler.M44_setEulerAngles Real.sin Real.cos a) = a := by
+theorem extractEulerXYZ_inverts_setEulerAngles (tmin tmax : ℝ) (a : V3 ℝ) (h : principal .XYZ a) :
+    Gen.Euler.extractEulerXYZ tmin tmax Real.sqrt Real.sin Real.cos atan2R (Gen.Euler.M44_setEulerAngles Real.sin Real.cos a) = a := by
   have sx := Real.sin_sq_add_cos_sq a.x
   have sy := Real.sin_sq_add_cos_sq a.y
   have sz := Real.sin_sq_add_cos_sq a.z
@@ -621,8 +621,8 @@ theorem extractEulerXYZ_inverts_setEulerAngles (tmin : ℝ) (a : V3 ℝ) (h : pr
   · linear_combination (Real.sin a.x ^ 2 + Real.sin a.y ^ 2 * Real.cos a.x ^ 2) * sz + Real.cos a.x ^ 2 * sy + sx
 
 /-- `extractEulerZYX` inverts the ZYX builder (`Euler (a, ZYX).toMatrix44 ()`) -/
-theorem extractEulerZYX_inverts_builder (tmin : ℝ) (a : V3 ℝ) (h : principal .ZYX a) :
-    Gen.Euler.extractEulerZYX tmin Real.sqrt Real.sin Real.cos atan2R (toM44 .ZYX Real.sin Real.cos a) = a := by
+theorem extractEulerZYX_inverts_builder (tmin tmax : ℝ) (a : V3 ℝ) (h : principal .ZYX a) :
+    Gen.Euler.extractEulerZYX tmin tmax Real.sqrt Real.sin Real.cos atan2R (toM44 .ZYX Real.sin Real.cos a) = a := by
   have sx := Real.sin_sq_add_cos_sq a.x
   have sy := Real.sin_sq_add_cos_sq a.y
   have sz := Real.sin_sq_add_cos_sq a.z
@@ -633,12 +633,12 @@ theorem extractEulerZYX_inverts_builder (tmin : ℝ) (a : V3 ℝ) (h : principal
   · linear_combination (Real.cos a.y) ^ 2 * sz + sy
 
 /-- `extractEuler (Matrix22)` / `extractEuler (Matrix33)` invert `setRotation` -/
-theorem extractEuler_inverts_setRotation (tmin r : ℝ) (hr : r ∈ Set.Ico (-Real.pi) Real.pi) :
-    Gen.Euler.extractEuler22 tmin Real.sqrt atan2R (Gen.Euler.M22_setRotation Real.sin Real.cos r) = r
-    ∧ Gen.Euler.extractEuler33 tmin Real.sqrt atan2R (Gen.Euler.M33_setRotation Real.sin Real.cos r) = r := by
+theorem extractEuler_inverts_setRotation (tmin tmax r : ℝ) (hr : r ∈ Set.Ico (-Real.pi) Real.pi) :
+    Gen.Euler.extractEuler22 tmin tmax Real.sqrt atan2R (Gen.Euler.M22_setRotation Real.sin Real.cos r) = r
+    ∧ Gen.Euler.extractEuler33 tmin tmax Real.sqrt atan2R (Gen.Euler.M33_setRotation Real.sin Real.cos r) = r := by
   have s := Real.sin_sq_add_cos_sq r
-  have l0 : Gen.V2.length tmin Real.sqrt ⟨Real.cos r, Real.sin r⟩ = 1 := V2_length_unit _ _ (by simp only; linear_combination s)
-  have l1 : Gen.V2.length tmin Real.sqrt ⟨-Real.sin r, Real.cos r⟩ = 1 := V2_length_unit _ _ (by simp only; linear_combination s)
+  have l0 : Gen.V2.length tmin tmax Real.sqrt ⟨Real.cos r, Real.sin r⟩ = 1 := V2_length_unit _ _ _ (by simp only; linear_combination s)
+  have l1 : Gen.V2.length tmin tmax Real.sqrt ⟨-Real.sin r, Real.cos r⟩ = 1 := V2_length_unit _ _ _ (by simp only; linear_combination s)
   constructor
   · simp only [Gen.Euler.extractEuler22, Gen.Euler.M22_setRotation, l0, l1, one_ne_zero, if_false, div_one]
     rw [neg_eq_iff_eq_neg]; exact atan2R_eq_neg 1 r one_pos hr (by ring) (by ring)
